@@ -311,8 +311,10 @@ func (g *c10Gen) term(depth int) *term.Term {
 		return term.C("f", g.term(depth-1))
 	case k < 75:
 		return term.C("g", g.term(depth-1), g.term(depth-1))
-	case k < 78:
+	case k < 77:
 		return term.C("-", g.term(depth-1), g.term(depth-1))
+	case k < 78:
+		return term.C("f", g.term(depth-1), g.term(depth-1)) // f/2 next to f/1
 	case k < 88:
 		n := g.r.Intn(10)
 		if g.r.Intn(3) == 0 {
@@ -529,8 +531,11 @@ func (c *c10) Generate(cx *Ctx, chunk int) []*Item {
 		if m.Front {
 			assert = "asserta"
 		}
+		// a call whose arguments are a copy of the stored head built in ANOTHER representation (generic './2
+		// cells instead of slices / string-backed lists): head unification must not depend on how a list was built
+		probe := c10Probe(bound)
 		asserted := &proto.Case{Kind: "prolog", Setup: []string{c10Helpers, ":- dynamic(p/" + fmt.Sprint(ar) + ")."},
-			Inputs: []*term.Term{cl, term.L(pairs...)},
+			Inputs: []*term.Term{cl, term.L(pairs...), probe},
 			Steps: []proto.Step{
 				{Query: "verif_in(0, C), verif_in(1, Bs), unify_all(Bs), " + assert + "(C).", Max: 2},
 				{Query: "clause(" + hd + ", B).", Max: 10},
@@ -538,16 +543,53 @@ func (c *c10) Generate(cx *Ctx, chunk int) []*Item {
 				{Query: "retract((" + hd + " :- B)).", Max: 1},
 				{Query: "clause(" + hd + ", B).", Max: 10},
 			}}
+		// the probe call runs before the clause is retracted
+		asserted.Steps = append(asserted.Steps[:3:3], append([]proto.Step{{Query: "verif_in(2, G-Vs), call(G).", Max: 20, StepBudget: 200000}}, asserted.Steps[3:]...)...)
 		consulted := &proto.Case{Kind: "prolog", Setup: []string{c10Helpers, ":- dynamic(p/" + fmt.Sprint(ar) + ").\n" + term.Text(bound, cvar) + ".\n"},
+			Inputs: []*term.Term{term.A("unused"), term.A("unused"), probe},
 			Steps: []proto.Step{
 				{Query: "clause(" + hd + ", B).", Max: 10},
 				{Query: hd + ".", Max: 20, StepBudget: 200000},
+				{Query: "verif_in(2, G-Vs), call(G).", Max: 20, StepBudget: 200000},
 			}}
 		compiled := &proto.Case{Kind: "compile", Inputs: []*term.Term{bound}}
 		meta, _ := json.Marshal(m)
 		items = append(items, &Item{Cases: []*proto.Case{asserted, consulted, compiled}, Meta: meta})
 	}
 	return items
+}
+
+// c10Probe builds G-Vs: G = the stored head with renamed variables and every list in the generic
+// cons-cell representation, Vs = the variables of G.
+func c10Probe(bound *term.Term) *term.Term {
+	head := bound
+	if bound.IsCmp(":-", 2) {
+		head = bound.Args[0]
+	}
+	var conv func(t *term.Term) *term.Term
+	conv = func(t *term.Term) *term.Term {
+		switch t.K {
+		case term.KVar:
+			return term.V(t.I + 1000)
+		case term.KCmp:
+			args := make([]*term.Term, len(t.Args))
+			for i, a := range t.Args {
+				args[i] = conv(a)
+			}
+			c := &term.Term{K: term.KCmp, S: t.S, Args: args}
+			if c.IsCmp(".", 2) {
+				c.Rep = "cons"
+			}
+			return c
+		}
+		return t
+	}
+	g := conv(head)
+	var vs []*term.Term
+	for _, id := range term.VarsOf(g) {
+		vs = append(vs, term.V(id))
+	}
+	return term.C("-", g, term.L(vs...))
 }
 
 // stored returns (head args, body) of the expected stored clause.
@@ -712,8 +754,44 @@ func (c *c10) Judge(cx *Ctx, it *Item, outs []*run.Outcome) Verdict {
 				v.Extra[label+"_behaviour_checked"]++
 			}
 		}
+		if behaviourAsserted {
+			// probe call: same head, other list representation
+			probe := c10Probe(m.Bound)
+			g := probe.Args[0]
+			ids := term.VarsOf(g)
+			pd := &DiffMeta{Program: prog, Query: g, NVars: len(ids), QVars: ids, Max: 19}
+			if po, err := pd.refRun(20000, ref.Options{}); err == nil && po.M.Unsupported == "" && !po.OutOfBudget {
+				step := base + 2
+				if step < len(res.Steps) {
+					// present the Vs list as answers of the probe's variables
+					cp := *res
+					cp.Steps = append([]proto.StepResult{}, res.Steps...)
+					st := cp.Steps[step]
+					var answers []map[string]*term.Term
+					for _, a := range st.Answers {
+						es, _ := term.ListElems(a["Vs"])
+						mm := map[string]*term.Term{}
+						for k, id := range ids {
+							if k < len(es) {
+								mm[qvar(id)] = es[k]
+							}
+						}
+						answers = append(answers, mm)
+					}
+					st.Answers = answers
+					cp.Steps[step] = st
+					r := compareRunStep(pd, po, &run.Outcome{Case: out.Case, Res: &cp}, step, false)
+					if r.Status == Violated {
+						return fail(fmt.Sprintf("%s: calling the predicate with the stored head rebuilt from generic list cells: %s", label, r.Msg))
+					}
+					if r.Status == Held {
+						v.Extra[label+"_other_representation_call_checked"]++
+					}
+				}
+			}
+		}
 		if ci == 0 {
-			st := res.Steps[3]
+			st := res.Steps[4]
 			if st.Err != nil || len(st.Answers) != 1 {
 				return fail(fmt.Sprintf("retract/1 of the clause did not succeed (%d answers, err %v)", len(st.Answers), st.Err))
 			}
@@ -726,7 +804,7 @@ func (c *c10) Judge(cx *Ctx, it *Item, outs []*run.Outcome) Verdict {
 			if !term.VariantAll(want, got) {
 				return fail(fmt.Sprintf("retract/1 unified with %s :- %s, which is not a variant of the clause that was given", term.C("p", got[:m.Arity]...), got[m.Arity]))
 			}
-			if n := len(res.Steps[4].Answers); n != 0 {
+			if n := len(res.Steps[5].Answers); n != 0 {
 				return fail(fmt.Sprintf("after retract/1 of the only clause clause/2 still lists %d clauses", n))
 			}
 			v.Extra["retract_checked"]++
